@@ -160,6 +160,22 @@ def run(ctx):
                     continue
                 if r[0] != 0 or not okout:
                     bad.append({"lang": lang, "skel": skel, "flags": fl, "rc": r[0], "diag": r[2][-300:], "output_present": okout})
+        # every path of the command line given RELATIVE to a working directory that is not the input
+        # file's: input, -I, -o and --marking all mean "relative to where idlc was started"
+        if k % 2 == 0:
+            cw = os.path.join(root, "started_here")
+            os.makedirs(os.path.join(cw, "legal"), exist_ok=True)
+            os.makedirs(os.path.join(cw, "gen"), exist_ok=True)
+            open(os.path.join(cw, "legal", "marking.txt"), "w").write("Copyright line one\nline two\n")
+            for lang, skel, o in (("c", False, os.path.join("gen", "rel.h")), ("cpp", True, os.path.join("gen", "rel_invoke.hpp")), ("rust", False, "gen")):
+                r = scrape.idlc_run(ctx["idlc"], os.path.join("..", fs["main"]), o, lang, skel, idirs=[".."],
+                                    extra=["--marking", os.path.join("legal", "marking.txt")], cwd=cw)
+                nruns += 1
+                got = os.path.join(cw, o)
+                okout = (os.path.isfile(got) and os.path.getsize(got) > 0) if lang != "rust" else any(fn.endswith(".rs") for fn in os.listdir(got))
+                if r[0] != 0 or not okout:
+                    bad.append({"lang": lang, "skel": skel, "flags": ["(cwd = another directory)", "-I ..", "--marking legal/marking.txt", "-o " + o, "../" + fs["main"]],
+                                "rc": r[0], "diag": r[2][-300:], "output_present": okout})
         return k, (bad, nruns)
 
     with ThreadPoolExecutor(max_workers=vlib.NCPU) as ex:
